@@ -22,11 +22,17 @@ computed on reversed label tuples of bytes, independently of ``dns.name``.
 A history stops at the first version whose flags / index / order / content are wrong (later
 versions would only show consequences of the same damage); bounds mismatches do not stop
 a history.
+
+Section O ("initial load: ways of supplying the origin") loads the same text with the origin
+given as origin=, as a $ORIGIN directive only, and as both, for relativize on and off,
+continues each zone with write transactions and applies the same checks; what only the
+$ORIGIN / both loads get wrong is reported under C20.initial_load_origin_supply.
 """
 
 from __future__ import annotations
 
 import itertools
+import random
 import traceback
 
 import dns.btreezone
@@ -43,6 +49,7 @@ CL_ORDER = "C20.canonical_iteration_order"
 CL_BOUNDS = "C20.bounds_match_reference"
 CL_DELEG = "C20.delegation_lookup"
 CL_CONTENT = "C20.content_matches_history"
+CL_LOAD = "C20.initial_load_origin_supply"
 
 BOUNDS = (
     "Real dns.btreezone.Zone (relativized and absolute, origin example., class IN) driven through "
@@ -71,7 +78,23 @@ BOUNDS = (
     "relative or absolute, sometimes upper-case) over a per-history pool of <= 14 owners of <= 4 labels, "
     "initial load of 0-8 records in random order by text or by transaction, 8% rollbacks, 4% full "
     "replacements, in three families (free; never an NS owner above/below another; additionally no non-NS "
-    "change at an existing cut) - quick 150 histories, thorough until 470 s (~30k versions). Not covered: "
+    "change at an existing cut) - quick 150 histories, thorough until 470 s (~30k versions). "
+    "INITIAL LOAD, WAYS OF SUPPLYING THE ORIGIN (O, clause initial_load_origin_supply): the same zone text "
+    "loaded by dns.zone.from_text(zone_factory=dns.btreezone.Zone) with the origin given (a) only as origin=, "
+    "(b) only as a $ORIGIN directive in the text, (c) as both (origin= as text), for relativize on and off, "
+    "owner names written absolute / relative with @ / alternating; every load is continued by write "
+    "transactions and after the load and after every transaction flags, index, order, content, "
+    "get_delegation and bounds are compared with the oracle exactly as in the other sections (bounds once per "
+    "distinct state and way), zone.origin must be the origin, and (a), (b), (c) must show the same nodes, "
+    "flags, rdatasets and index after every version; a failure that (a) shows as well is reported under its "
+    "ordinary clause, one that only (b) or (c) shows under this clause. Fixed part: a six-record set without "
+    "nested NS owners (apex SOA and NS, a cut with glue, a plain name, a name under an empty non-terminal), the "
+    "SOA permuted with the rest, followed by 2 transactions that create a cut above existing names, remove a "
+    "cut, rewrite the apex NS through the absolute spelling - quick 24 of the 720 orders, thorough 360. "
+    "Seeded part (own generator seeded from the run's seed): contents and 2-3 follow-up transactions from the "
+    "operation generator of S (families rotated), each in 2 (quick: 18 contents, 60 sampled bounds queries) or "
+    "3 (thorough: 100 contents, all queries; run after S) record orders (generated, reversed - SOA last -, shuffled). "
+    "Not covered: $ORIGIN directives that differ from origin= or change in mid-text, $INCLUDE, from_file/from_xfr loads, "
     "zones whose apex node is absent at query time (bounds not evaluated there), classes other than IN, "
     "other origins, concurrent readers/writers (C11/C12), a first non-replacement writer() on a fresh zone "
     "(F11, C10). Nothing in this property needs the cryptography package, so its absence costs no coverage."
@@ -260,9 +283,41 @@ def real_apply(txn, op, rel):
         raise ValueError(op)
 
 
-def record_text(op):
-    owner = mkname(nm(op[1]), False).to_text()
+def record_text(op, relative_owner=False):
+    if relative_owner:
+        owner = sp(nm(op[1])) or "@"
+    else:
+        owner = mkname(nm(op[1]), False).to_text()
     return f"{owner} 300 IN {op[2]} {rdata_text(op[2], op[3])}\n"
+
+
+ORIGIN_WAYS = ("arg", "directive", "both")
+WAY_TEXT = {"arg": "origin= argument", "directive": "$ORIGIN directive only", "both": "origin= argument and $ORIGIN directive"}
+
+
+def zone_text(ops, way="arg", owners="abs"):
+    """The zone text of a load.  way: how the origin reaches the reader ("arg": only as the
+    origin= argument, "directive": only as a $ORIGIN line, "both").  owners: owner names
+    written absolute ("abs"), relative to the origin with "@" for the apex ("rel"), or
+    alternating per record ("mixed")."""
+    lines = []
+    if way in ("directive", "both"):
+        lines.append(f"$ORIGIN {ORIGIN.to_text()}\n")
+    for i, op in enumerate(ops):
+        lines.append(record_text(op, owners == "rel" or (owners == "mixed" and i % 2 == 1)))
+    return "".join(lines)
+
+
+def load_text(t, rel):
+    """dns.zone.from_text of a text-mode transaction description."""
+    way = t.get("origin", "arg")
+    text = zone_text(t["ops"], way, t.get("owners", "abs"))
+    kw = {}
+    if way == "arg":
+        kw["origin"] = ORIGIN
+    elif way == "both":
+        kw["origin"] = ORIGIN.to_text()  # (the argument as text, the other accepted form)
+    return dns.zone.from_text(text, relativize=rel, zone_factory=dns.btreezone.Zone, check_origin=False, **kw)
 
 
 class Hist:
@@ -291,10 +346,7 @@ class Hist:
         ops = t["ops"]
         try:
             if mode == "text":
-                text = "".join(record_text(op) for op in ops)
-                self.zone = dns.zone.from_text(
-                    text, origin=ORIGIN, relativize=self.rel, zone_factory=dns.btreezone.Zone, check_origin=False
-                )
+                self.zone = load_text(t, self.rel)
             else:
                 if self.zone is None:
                     self.zone = dns.btreezone.Zone(ORIGIN, relativize=self.rel)
@@ -627,6 +679,8 @@ def report(R, h, script):
 
 
 def replay(data):
+    if data.get("origin_ways"):
+        return replay_origin_ways(data)
     script = data["script"]
     h = run_history(script, memo=set(), qpool=None)
     if not h.fails:
@@ -850,8 +904,9 @@ def name_pool(rng):
     return pool
 
 
-def seeded_history(R, family, idx, memo, qpool):
-    rng = R.rng
+def gen_script(rng, family, ntx_range=(3, 26)):
+    """One seeded history: an initial load (by text or by a replacement transaction) and
+    ``ntx_range`` further transactions from the operation generator of ``family``."""
     rel = rng.random() < 0.5
     pool = name_pool(rng)
     content = {}  # model used by the generator only (name -> type -> set)
@@ -927,7 +982,7 @@ def seeded_history(R, family, idx, memo, qpool):
     else:
         txns.append({"repl": True, "ops": first})
     committed = {n: {t: set(vs) for t, vs in ts.items()} for n, ts in content.items()}
-    ntx = rng.randrange(3, 26)
+    ntx = rng.randrange(*ntx_range)
     for _ in range(ntx):
         r = rng.random()
         repl = r < 0.04
@@ -955,7 +1010,12 @@ def seeded_history(R, family, idx, memo, qpool):
             committed = {n: {t: set(vs) for t, vs in ts.items()} for n, ts in content.items()}
         else:
             content = {n: {t: set(vs) for t, vs in ts.items()} for n, ts in committed.items()}
-    script = {"rel": rel, "txns": txns}
+    return {"rel": rel, "txns": txns}
+
+
+def seeded_history(R, family, idx, memo, qpool):
+    script = gen_script(R.rng, family)
+    rel, txns = script["rel"], script["txns"]
     counter = {"n": 0}
 
     def on_commit(h, i):
@@ -973,6 +1033,170 @@ def seeded_history(R, family, idx, memo, qpool):
     elif idx == 0:
         R.sample(CL_BOUNDS, {"section": "S", "family": family, "rel": rel, "transactions": len(txns), "first": txns[:2]})
     return counter["n"]
+
+
+# --------------------------------------------------------------------------- O: ways of supplying the origin
+# no nested NS owners here: the derived state of every order is well defined, so the
+# follow-up transactions always run on a state built by the load
+ORIGIN_SET = [
+    ["put", "", "SOA", 1],
+    ["add", "", "NS", 1],
+    ["add", "b", "NS", 1],
+    ["add", "f.b", "A", 1],
+    ["add", "d", "A", 1],
+    ["add", "b.d", "TXT", 1],
+]
+# d becomes a cut (b.d turns into glue); then the cut b goes away (f.b stops being glue),
+# the apex NS rrset is rewritten through the absolute spelling and a name is added
+ORIGIN_FOLLOW = [
+    {"ops": [["add", "d", "NS", 1, 1], ["add", "", "TXT", 1, 0]]},
+    {"ops": [["delt", "b", "NS", 0, 0], ["put", "", "NS", 2, 1], ["put", "f", "A", 2, 1]]},
+]
+
+
+def state_fp(zone):
+    """What a committed version shows, for the agreement between the ways of loading."""
+    with zone.reader() as txn:
+        v = txn.version
+        nodes = []
+        for key, node in v.nodes.items():
+            rdss = sorted(
+                (dns.rdatatype.to_text(rds.rdtype), int(rds.ttl), tuple(sorted(rd.to_text() for rd in rds))) for rds in node.rdatasets
+            )
+            nodes.append((key.to_text(), int(node.flags), tuple(rdss)))
+        index = tuple(n.to_text() for n in v.delegations)
+    return (str(zone.origin), bool(zone.relativize), tuple(nodes), index)
+
+
+def run_origin_ways(first, follow, rel, memos, qpool):
+    """The same load (records, record order, owner spelling) with the origin supplied in
+    each of ORIGIN_WAYS, continued by the same transactions.  Returns
+    [(way, script, Hist, [fingerprint per checked version])]."""
+    out = []
+    for way in ORIGIN_WAYS:
+        script = {"rel": rel, "txns": [dict(first, mode="text", origin=way)] + follow}
+        fps = []
+
+        def on_commit(h, i, fps=fps):
+            if not h.fatal:
+                fps.append(state_fp(h.zone))
+
+        h = run_history(script, memo=memos[way], qpool=qpool, on_commit=on_commit)
+        if not h.fatal and h.zone is not None and h.zone.origin != ORIGIN:
+            h.fails.append((CL_CONTENT, "zone-origin", "", f"zone.origin is {h.zone.origin!r} after the load"))
+        out.append((way, script, h, fps))
+    return out
+
+
+def judge_origin_ways(runs):
+    """Failures that belong to the way the origin was supplied: [(way, script, check, ctx,
+    detail, underlying clause)].  A failure that the load with origin= shows as well is an
+    ordinary failure of its own clause (reported from that run), not one of this clause."""
+    base = {(f[0], f[1], f[2]) for f in runs[0][2].fails}
+    found = []
+    for way, script, h, fps in runs[1:]:
+        for clause, check, ctx, detail in h.fails:
+            if (clause, check, ctx) not in base:
+                cut = script
+                if h.fatal and h.failed_at is not None:
+                    cut = {"rel": script["rel"], "txns": script["txns"][: h.failed_at + 1]}
+                found.append((way, cut, check, ctx, detail, clause))
+    if not any(r[2].fails for r in runs):
+        fa = runs[0][3]
+        for way, script, h, fps in runs[1:]:
+            if fps != fa:
+                k = next((i for i, (x, y) in enumerate(zip(fa, fps)) if x != y), min(len(fa), len(fps)))
+                x = fa[k] if k < len(fa) else None
+                y = fps[k] if k < len(fps) else None
+                what = "zone.origin" if x and y and x[0] != y[0] else "nodes/flags/index"
+                found.append((way, script, "origin-ways-disagree", what, f"version {k}: with origin= {x} / with {WAY_TEXT[way]} {y}"[:400], CL_LOAD))
+    return found
+
+
+def report_origin_ways(R, runs):
+    way0, script0, h0, _ = runs[0]
+    if h0.fails:
+        report(R, h0, script0)
+    rel = runs[0][1]["rel"]
+    for way, script, check, ctx, detail, clause in judge_origin_ways(runs):
+        sig = {"site": "dns.btreezone", "check": check, "origin": WAY_TEXT[way], "relativize": "on" if rel else "off"}
+        if ctx:
+            sig["context"] = ctx
+        R.violation(
+            CL_LOAD,
+            f"zone loaded with {WAY_TEXT[way]}, relativize={rel}: {check}{' (' + ctx + ')' if ctx else ''}, not so with origin=: {detail}"[:600],
+            sig=sig,
+            replay={"script": script, "clause": clause, "check": check, "context": ctx, "origin_ways": True},
+        )
+
+
+def count_origin_ways(R, runs, key):
+    for way, script, h, fps in runs:
+        k = (key, way)
+        R.case(CL_LOAD, ("O", k), h.ncommits > 0)
+        for i in range(len(fps)):
+            count_cases(R, h, "O", (k, i))
+        if h.bounds_evaluated:
+            R.case(CL_BOUNDS, ("O", k), True)
+            R.case(CL_DELEG, ("O", k), True)
+
+
+def section_origin_ways(R, rng, norders, ncontents, norders_seeded, nq):
+    """Initial load: ways of supplying the origin."""
+    memos = {way: set() for way in ORIGIN_WAYS}
+    styles = ("abs", "rel", "mixed")
+    # fixed record set, SOA included in the permutation
+    perms = list(itertools.permutations(range(len(ORIGIN_SET))))
+    step = max(1, len(perms) // norders)
+    nrun = 0
+    for pi in range(0, len(perms), step):
+        if R.deadline():
+            R.note(f"O: deadline after {nrun} fixed-set loads")
+            return
+        perm = perms[pi]
+        first = {"ops": [ORIGIN_SET[i] for i in perm], "owners": styles[(pi // step) % 3]}
+        qpool = rng.sample(QPOOL, nq) if nq < len(QPOOL) else None
+        for rel in (True, False):
+            runs = run_origin_ways(first, ORIGIN_FOLLOW, rel, memos, qpool)
+            nrun += len(runs)
+            count_origin_ways(R, runs, ("fixed", perm, rel))
+            report_origin_ways(R, runs)
+            if pi == 0 and rel and not any(r[2].fails for r in runs):
+                R.sample(CL_LOAD, {"section": "O", "text": zone_text(first["ops"], "directive", first["owners"]), "follow": ORIGIN_FOLLOW})
+    # generated contents, continued by transactions of the operation generator
+    for c in range(ncontents):
+        if R.deadline():
+            R.note(f"O: deadline after {c} generated contents")
+            break
+        family = ("no-nested", "careful", "free")[c % 3]
+        script = gen_script(rng, family, ntx_range=(2, 4))
+        load_ops = script["txns"][0]["ops"]
+        follow = script["txns"][1:]
+        qpool = rng.sample(QPOOL, nq) if nq < len(QPOOL) else None
+        for o in range(norders_seeded):
+            ops = list(load_ops) if o == 0 else (list(reversed(load_ops)) if o == 1 else rng.sample(load_ops, len(load_ops)))
+            first = {"ops": ops, "owners": styles[(c + o) % 3]}
+            for rel in (True, False):
+                runs = run_origin_ways(first, follow, rel, memos, qpool)
+                nrun += len(runs)
+                count_origin_ways(R, runs, ("gen", c, o, rel))
+                report_origin_ways(R, runs)
+    R.note(f"O: {nrun} zones loaded (3 ways of supplying the origin x relativize on/off)")
+
+
+def replay_origin_ways(data):
+    script = data["script"]
+    first = dict(script["txns"][0])
+    first.pop("origin", None)
+    first.pop("mode", None)
+    way = script["txns"][0].get("origin", "arg")
+    runs = run_origin_ways(first, script["txns"][1:], bool(script["rel"]), {w: set() for w in ORIGIN_WAYS}, None)
+    found = [f for f in judge_origin_ways(runs) if f[0] == way] or judge_origin_ways(runs)
+    same = [f for f in found if f[2] == data.get("check")]
+    if same or found:
+        f = (same or found)[0]
+        return True, f"loaded with {WAY_TEXT[f[0]]}: {f[2]} {f[3]}: {f[4]}"[:500]
+    return False, "the zone loaded with origin=, with $ORIGIN only and with both has the same, correct derived state"
 
 
 # --------------------------------------------------------------------------- driver
@@ -1016,6 +1240,15 @@ def run(R):
             sect(section_toggle_closure, "T:A8", SLOTS_A, rel, memo)
             sect(section_toggle_closure, "T:B8", SLOTS_B, rel, memo)
 
+    # ways of supplying the origin to the initial load.  Its generator is seeded from the run's
+    # seed but separate from R.rng, so that the histories of section S are the same with and
+    # without this section (in the thorough tier S stops on a time limit).
+    # Quick: before S, so that a slow machine cannot squeeze it out; thorough: after S, in the
+    # time between S's soft limit and the deadline.
+    orng = random.Random(f"C20.O/{R.seed}")
+    if quick:
+        sect(section_origin_ways, orng, 24, 18, 2, 60)
+
     # seeded
     rng = R.rng
     qsample = None
@@ -1034,3 +1267,5 @@ def run(R):
                 R.note(f"harness error in seeded_history {family}: {traceback.format_exc(limit=5)}")
                 return
     R.note(f"S: {total} committed versions checked in seeded histories")
+    if not quick:
+        sect(section_origin_ways, orng, 360, 100, 3, len(QPOOL))
